@@ -61,6 +61,12 @@ def run_c11(ctx):
             d2 = [(n, dict(d, nodes=[x for x in d["nodes"] if x is not None]), l) for n, d, l in d2]
             d2 = [x for x in d2 if x[1]["nodes"]]
             variants.append(("nodes-removed", d2))
+            # overlapping exports: the same nodes defined a second time in another file, next to the dangling references of the variant above
+            dup = [x for x in d2 if not x[0].endswith("Opc.Ua.NodeSet2.xml")] or d2
+            if dup:
+                n_, d_, l_ = rng.choice(dup)
+                variants.append(("nodes-removed+overlap", d2 + [("zz_overlap_" + n_, copy.deepcopy(d_), l_)]))
+                variants.append(("closed+overlap", ds + [("zz_overlap_" + n_, copy.deepcopy(dict(ds)[n_] if False else [x for x in ds if x[0] == n_][0][1]), l_)]))
             for kind, dsv in variants:
                 if not dsv: continue
                 files = [(n, docs.render(d, rng)) for n, d, _ in dsv]
@@ -156,6 +162,7 @@ def run_c17(ctx):
             # the first cases are fixed shapes: EnumStrings with a reserved position and variables on both sides of it; EnumValues; two types
             if ci < 4: desc = nsgen.add_enums(g, rng, n_types=1, flavours=["strings"], n_vars=3, kinds=["in", "in", "in"], placeholder=True)
             elif ci < 6: desc = nsgen.add_enums(g, rng, n_types=2, flavours=["values", "strings"], n_vars=3, kinds=["in", "in", "out" if ci == 5 else "in"])
+            elif ci == 6: desc = nsgen.add_enums(g, rng, n_types=1, flavours=["values"], n_vars=4, kinds=["in", "in", "in", "in"], value_names=["\u00b0C", "m\u00b2 & <x>", "\u00b5", "plain"])   # texts an XML writer escapes
             else: desc = nsgen.add_enums(g, rng)
             ds = nsgen.serialise(g, rng, value_xml=parseprops.value_xml, aliases=rng.random() < 0.5)
             files = [(n, docs.render(d, rng)) for n, d, _ in ds]
@@ -391,9 +398,15 @@ def run_c16(ctx):
         # long arrays (list values are never rejected, whatever their length and whatever built-in type is declared)
         sweep.append([(T.UAListOf(tuple(T.UAInt32(i) for i in range(150)), "Int32"), "Int32")])
         sweep.append([(T.UAListOf(tuple(T.UADouble(i + 0.5) for i in range(101)), "Double"), "String"), (T.UAListOf(tuple(T.UAString("s%d" % i) for i in range(3)), "String"), "Int32")])
+        # a namespace of more than a thousand nodes whose valued variables come last (objects and types first, data at the end of the file)
+        big_at = len(sweep); sweep.append([(T.UAInt32(7), "Int32"), (T.UAString("x"), "Int32")])
         n_rand = 35 if ctx.quick() else 600
         for ci in range(len(sweep) + n_rand):
             g = nsgen.gen_graph(rng, n_ns=1, n_nodes=rng.randint(0, 2), hostile=False, with_values=False, dangling=False)
+            if ci == big_at:
+                for j in range(1500):
+                    ok_ = (g.uris[0], "i", str(20000 + j)); g.nodes[ok_] = dict(cls="UAObject", bname=(g.uris[0], "Obj%d" % j), display="Obj%d" % j, desc=None, attrs={}, value=None); g.order.append(ok_)
+                    g.refs.append(((UA, "i", "85"), ok_, (UA, "i", "35")))
             if ci < len(sweep): vars_ = nsgen.add_typed_variables(g, rng, spec=sweep[ci], n_custom=1)
             else: vars_ = nsgen.add_typed_variables(g, rng, make_value=c16_value)
             # every third graph also holds a namespace the written one does not use, in a file that is parsed BEFORE the base nodeset
